@@ -4,7 +4,7 @@ SDK_TRUST = "Cosmos-SDK (bank, staking, store, baseapp) is modelled, not verifie
 
 PROPS = {
     "C04": dict(
-        lean_modules=["PalomaModel.Props.C04", "PalomaModel.Props.Consts.C04"], gen=["Consts.lean", "ConstTable.lean"],
+        lean_modules=["PalomaModel.Props.C04", "PalomaModel.Props.Consts.C04", "PalomaModel.Props.Translated.C04"], gen=["Consts.lean", "ConstTable.lean", "Translated.lean"],
         harness_test="TestC04",
         extra_tests=[{"test": "TestC04Keeper", "dir": "C04K", "n_quick": 300, "n_thorough": 2500}],
         n_quick=3000, n_thorough=40000, thorough_seeds=8,
@@ -30,7 +30,7 @@ PROPS = {
         assumptions=["every message runs on a cached store committed only on success (baseapp per-message atomicity, reproduced by the harness)"],
     ),
     "C15": dict(
-        lean_modules=["PalomaModel.Props.C15", "PalomaModel.Props.Consts.Bridge"], gen=["ConstTable.lean"],
+        lean_modules=["PalomaModel.Props.C15", "PalomaModel.Props.Consts.Bridge", "PalomaModel.Props.Translated.C15"], gen=["ConstTable.lean", "Translated.lean"],
         harness_test="TestBridge", env={"VERIF_PROP": "C15"},
         n_quick=120, n_thorough=1500, thorough_seeds=8, timeout_quick=900,
         spec_ops=["send", "cancel"],
@@ -137,7 +137,7 @@ PROPS = {
         assumptions=["bonded stake stays below 2^63 ugrain (bounded by the bond-denom supply)"],
     ),
     "C10": dict(
-        lean_modules=["PalomaModel.Props.C10", "PalomaModel.Props.Consts.C10"], gen=["ConstTable.lean"],
+        lean_modules=["PalomaModel.Props.C10", "PalomaModel.Props.Consts.C10", "PalomaModel.Props.Translated.C10"], gen=["ConstTable.lean", "Translated.lean"],
         harness_test="TestC10",
         n_quick=300, n_thorough=3000, thorough_seeds=6, timeout_quick=900,
         spec_ops=["*"],  # every observable the driver prints for this property is the property's own subject (canonical state / verdicts)
@@ -193,7 +193,7 @@ PROPS = {
         assumptions=["ReassignOrphanedMessages (keeps signatures while changing the relayer) has no caller in the repository (checked by the harness and by grep)"],
     ),
     "C14": dict(
-        lean_modules=["PalomaModel.Props.C14", "PalomaModel.Props.Consts.Queue"], gen=["ConstTable.lean"],
+        lean_modules=["PalomaModel.Props.C14", "PalomaModel.Props.Consts.Queue", "PalomaModel.Props.Translated.C14"], gen=["ConstTable.lean", "Translated.lean"],
         harness_test="TestC14",
         n_quick=300, n_thorough=2500, thorough_seeds=6, timeout_quick=900,
         spec_ops=["*"],  # every observable the driver prints for this property is the property's own subject (canonical state / verdicts)
@@ -203,7 +203,7 @@ PROPS = {
         assumptions=[],
     ),
     "C12": dict(
-        lean_modules=["PalomaModel.Props.C12", "PalomaModel.Props.Consts.C12"], gen=["ConstTable.lean"],
+        lean_modules=["PalomaModel.Props.C12", "PalomaModel.Props.Consts.C12", "PalomaModel.Props.Translated.C12"], gen=["ConstTable.lean", "Translated.lean"],
         harness_test="TestC12",
         n_quick=300, n_thorough=3000, thorough_seeds=6, timeout_quick=900,
         spec_ops=["*"],  # every observable the driver prints for this property is the property's own subject (canonical state / verdicts)
